@@ -7,6 +7,11 @@ CLAIMED = {
    text="Bounded symbolic check of the real include-merge code: for every value of the symbolic task attributes, names, namespaces and include options within the bounds, the solver discharges that the merged task equals its definition field by field, is keyed and cross-referenced under its namespace, and that clashes are reported. Tests pin a few fixtures; here all attribute/option combinations inside the bounds are covered by the solver.",
    note="Tasks are constructed as ast values (YAML reading is not part of this check); strings <= 3 bytes over small alphabets; one task per included file with one dep, two cmds, one alias; filepathext.SmartJoin and logging are stubs; z3 trusted.",
    technique="harnesses over ast.Tasks.Merge / Task.DeepCopy / Taskfile.Merge with symbolic fields; native replay of models"),
+ "C19": dict(
+   category="other",
+   text="Bounded symbolic check of the real argument plumbing: for every argv within the bounds (<=2 positional, <=3 forwarded arguments of <=4 bytes over an alphabet of shell/template/YAML-special bytes, with and without --) the solver discharges that each forwarded argument is quoted on its own and CLI_ARGS is the single blank-joined string, that NAME=value is split at the first '=' only, that non-assignments become calls in order, and that --init writes exactly where the positional argument says and never overwrites (decision table over 5 path shapes x file-system states through the real run()). Tests sample a handful of argvs; rare bytes and the --/--init combinations are what the solver enumerates.",
+   note="mvdan/sh syntax.Quote is a stub (an injective per-argument function; the Quote/shell-parse inverse relation is trusted, spot-checked in the native replay with shell.Fields); pflag is a stub returning the symbolic argv; os.Stat/WriteFile/Getwd are a harness file-system model; the shellQuote template function is not yet encoded; argument length <= 4 bytes.",
+   technique="harnesses over args.Get, args.Parse, splitVar and cmd/task run() (--init block); models replayed natively and through the built CLI binary"),
 }
 
 NA = {p: NOT_YET for p in ["C%02d" % i for i in range(1, 21)]}
